@@ -21,8 +21,13 @@ element of the trace and the invariant is checked AT that element (so it holds w
   reads.no_use_after_close[..] / reads.file_left_open_for_next_iteration[..]   nothing is invoked on an object after its
         close; a file opened BEFORE a loop is still open at the end of the arbitrary iteration (loop invariant `open`)
   reads.opens_for_reading_only[..]               self.open is only ever called with mode 'rb' / 'r' (or none)
+  reads.handle_open_and_fn_unchanged[..]         no read rebinds self.open / self.fn
+  reads.delegates_to_shared_open[..] / reads.reads_the_object_it_was_given[read_row_group_file,..]   iter_row_groups / head /
+        count(row_filter=True) / the row_filter=True pass of to_pandas read through to_pandas of this handle or of self[...] only;
+        read_row_group_file hands core.read_row_group `infile` when given, else what self.open(fn, mode='rb') returned
   handles.open_returns_callers_object[__init__]  after ParquetFile(<file-like>): self.open(anything) IS the object given, self.fn
         is None, and evaluating it has no effect on the file
+  handles.file_object_only_reachable_through_open[__init__]   no attribute of the new handle (or of its footer) holds the object
   handles.derived_shares_open_and_fn[int|slice] / handles.derived_carries_exactly_selected_row_groups[int|slice]
         pf[item]: new.open is self.open, new.fn is self.fn (identity), new.row_groups == list(self.row_groups[item]),
         and so is new.fmd.row_groups
@@ -34,9 +39,17 @@ element of the trace and the invariant is checked AT that element (so it holds w
   count.equals_rows_preallocated_by_to_pandas[root|int|slice]   count() == the size to_pandas hands to pre_allocate on that handle
   frame.helpers_do_no_file_io                    (ast) every ParquetFile method / property used opaquely in these runs never
         mentions self.open / open_with / a with-statement / close / seek
-Entry points: __init__[file-like; default open_with | fs given], to_pandas (filters / row_filter symbolic: every mode in one
-run), read_row_group_file (deep: core.read_row_group, read_row_group_arrays, read_col inlined; infile given | None),
-iter_row_groups, head, count(row_filter=True), _read_partitions; modes file-like | path.
+Entry points (modes file-like | path; each contract is used as a CUT by its callers, so a change is reported where it is made):
+  __init__[file-like; default open_with | fs given] with _parse_header inline;
+  to_pandas (filters / row_filter symbolic: plain, filtered, row_filter=True with its recursive pass, custom mask - one run),
+      read_row_group_file and the recursive to_pandas as cuts;
+  read_row_group_file[infile given | None] (assign symbolic: both the to_pandas and the direct use, recursion as a cut),
+      core.read_row_group as a cut;
+  core.read_row_group with read_row_group_arrays and read_col inline (the only place where bytes are read): loops over columns /
+      remaining names / partition columns run for an arbitrary member; the page loop of read_col is skipped after checking that no
+      file object, handle or open function is reachable from its locals (`infile` is re-bound to the NumpyIO of the bytes read);
+  iter_row_groups, head, count(row_filter=True), _read_partitions: read only through <derived handle>.to_pandas (cut).
+except-handlers are additionally entered from the state at the start of their try body (an exception out of an opaque call).
 A source shape the script does not model gives `<run>.out_of_reach` = unknown (never a violation).
 """
 import ast
@@ -46,13 +59,11 @@ import z3
 
 from vc import backends
 from vc.front_py import parse_module
-from vc.symexec import (Engine, Path, Custom, Opaque, Str, PyB, PyI, NONE, NoneV, Unsupported, Tup, Opt,
-                        AbstractComp, AbstractDict, BUILTINS, _target_names)
+from vc.symexec import Path, Custom, Opaque, Str, PyB, PyI, NONE, NoneV, Unsupported, Tup, Opt, BUILTINS, _target_names
 from vlib.common import PROVED, REFUTED, UNKNOWN
-from .util import Results, solve, ret_line
-from .c06_partial import (Eng6, PF, FMD, RG, RGList, SliceObj, DictLit, ConstList, Recorder, ProofScriptError, S, NR, s_step, s_mono,
-                          pose, stored_names, mutated_names, _fresh_like, _inline_method, _same_selection, ret_tag, h_sum as h_sum6,
-                          h_len, MUTATORS)
+from .util import Results, solve
+from .c06_partial import (Eng6, PF, FMD, RG, RGList, SliceObj, DictLit, Recorder, ProofScriptError, S, NR, s_step, s_mono,
+                          pose, stored_names, mutated_names, _fresh_like, _same_selection, ret_tag, h_sum as h_sum6, h_len)
 
 _ids = itertools.count(1000)
 
@@ -109,6 +120,12 @@ def drop_positions(p, only=None):
             p.ghost["fstate"][(fid, "est")] = False
 
 
+def _event(eng, p, name, fid, node, origin=None):
+    ev = (name, fid, getattr(node, "lineno", 0) if node is not None else 0)
+    p.ghost["io"].append(ev)
+    eng.io_log.append(ev + (origin,))
+
+
 def _viol(eng, p, name, node, note):
     eng.oblige(p, f"{name}[{eng.entry_tag}]", "post", z3.BoolVal(False), node, note=note)
 
@@ -134,13 +151,13 @@ class FileObj:
         return Opaque(("file", self.fid, name))
 
     def setattr(self, eng, p, name, v):
-        p.ghost["io"].append(("setattr:" + name, self.fid, 0))
+        _event(eng, p, "setattr:" + name, self.fid, None, self.origin)
         if self.origin == "caller":
             _viol(eng, p, "reads.only_position_changes", None, f"attribute {name!r} is stored on the caller's file object")
 
     def life_ends(self, eng, p, how, node):
         st = p.ghost["fstate"]
-        p.ghost["io"].append((how, self.fid, getattr(node, "lineno", 0)))
+        _event(eng, p, how, self.fid, node, self.origin)
         if self.origin == "caller":
             _viol(eng, p, "reads.callers_file_object_not_closed", node,
                   f"{how} on a file object this call did not open (L{getattr(node, 'lineno', 0)}): every later read through this or a derived handle fails")
@@ -154,13 +171,16 @@ class FileObj:
         if name in LIFE_ENDING:
             self.life_ends(eng, p, name, node)
             return [(p, NONE)]
-        p.ghost["io"].append((name, self.fid, ln))
+        _event(eng, p, name, self.fid, node, self.origin)
         if name == "seek":
             wh = args[1] if len(args) > 1 else kw.get("whence")
             absolute = wh is None
             if isinstance(wh, (PyI, PyB)):
                 w = z3.simplify(eng.as_int(wh))
                 absolute = z3.is_int_value(w) and w.as_long() in (0, 2)
+            elif wh is not None and node is not None:
+                src = [a for a in node.args[1:2]] + [k.value for k in node.keywords if k.arg == "whence"]
+                absolute = bool(src) and ast.unparse(src[0]).split(".")[-1] in ("SEEK_SET", "SEEK_END")
             if absolute:
                 st[(self.fid, "est")] = True
             elif not st[(self.fid, "est")]:
@@ -199,7 +219,7 @@ class OpenFn:
         ok = md is None or (isinstance(md, Str) and md.s in ("rb", "r", "br"))
         eng.oblige(p, f"reads.opens_for_reading_only[{eng.entry_tag}]", "post", z3.BoolVal(bool(ok)), node,
                    note=f"self.open called with mode {getattr(md, 's', md)!r}")
-        p.ghost["io"].append(("open:" + self.mode, None, getattr(node, "lineno", 0)))
+        _event(eng, p, "open:" + self.mode, None, node)
         if self.mode == "file-like":
             return [(p, self.f0)]
         fid = f"O{next(eng.counter)}"
@@ -249,6 +269,21 @@ class LambdaFn:
             if q is not p:
                 q.env = dict(saved)
         return outs
+
+
+_SN = {}
+
+
+def stored_names_c(stmts):
+    k = tuple(id(x) for x in stmts)
+    if k not in _SN:
+        _SN[k] = (stmts, frozenset(stored_names(stmts)), frozenset(mutated_names(stmts)))
+    return _SN[k][1]
+
+
+def mutated_names_c(stmts):
+    stored_names_c(stmts)
+    return _SN[tuple(id(x) for x in stmts)][2]
 
 
 def holds_io(v):
@@ -388,19 +423,16 @@ class AnyList:
 # =================================================================================================
 def frame_for(eng, p, st, n, item_fn):
     targets = _target_names(st.target)
-    assigned = stored_names(st.body)
-    mutated = mutated_names(st.body) - assigned
+    assigned = stored_names_c(st.body)
+    mutated = mutated_names_c(st.body) - assigned
     pre_files = [fid for fid, _ in p.ghost["files"]]
     tag = eng.entry_tag
     for nm in assigned:
         if holds_io(p.env.get(nm)):
             raise ProofScriptError(f"loop at L{st.lineno} re-assigns {nm!r}, which holds a file object / handle at loop entry")
-    for fid in pre_files:
-        if p.ghost["fstate"][(fid, "closed")]:
-            pass        # closed before the loop: any use inside is reported by no_use_after_close
     out = []
 
-    def havoc(q, in_body):
+    def havoc(q, in_body, drop):
         for nm in sorted(assigned | targets):
             if nm in q.env:
                 q.env[nm] = _fresh_like(eng, q.env[nm], nm)
@@ -409,21 +441,18 @@ def frame_for(eng, p, st, n, item_fn):
         for nm in sorted(mutated):
             if nm in q.env:
                 q.env[nm] = Custom(Recorder(nm)) if in_body else Custom(AnyList(nm, n))
-        drop_positions(q, pre_files)
+        if drop:
+            drop_positions(q, pre_files)
 
-    e0 = p.fork(n <= 0)
-    if eng.feasible(e0):
-        out += eng.block(st.orelse, [e0]) if st.orelse else [e0]
+    n_log0 = len(eng.io_log)
     h = p.fork()
     k = eng.fresh_int("iter_k")
     h.pc += [k >= 0, k < n]
     if eng.feasible(h):
-        havoc(h, True)
+        havoc(h, True, True)
         h.ghost["iter_k"] = k
-        h.ghost["loop_depth"] = h.ghost.get("loop_depth", 0) + 1
         for b0 in eng.assign(st.target, item_fn(eng, h, k), h):
             for b in eng.block(st.body, [b0]):
-                b.ghost["loop_depth"] = p.ghost.get("loop_depth", 0)
                 if b.ctl == "break":
                     b.ctl = None
                     out.append(b)
@@ -435,16 +464,20 @@ def frame_for(eng, p, st, n, item_fn):
                     for nm in assigned:
                         if holds_io(b.env.get(nm)) and nm in p.env:
                             raise ProofScriptError(f"loop at L{st.lineno}: {nm!r} carries a file object between iterations")
+                    A0, A1 = p.ghost.get("attrs", {}), b.ghost.get("attrs", {})
+                    for key in A0:
+                        if holds_io(A0[key]) and A1.get(key) is not A0[key]:
+                            raise ProofScriptError(f"loop at L{st.lineno} re-assigns {key[0]}.{key[1]}, through which a file is reached")
                 else:
                     out.append(b)
-    e = p.fork(n > 0)
-    if eng.feasible(e):
-        havoc(e, False)
-        e.ghost.pop("iter_k", None)
-        for e1 in eng.assign(st.target, item_fn(eng, e, n - 1), e):
-            for nm in targets & assigned:
-                e1.env[nm] = Opaque(f"{nm}!after_loop{next(eng.counter)}")
-            out += eng.block(st.orelse, [e1]) if st.orelse else [e1]
+    # ONE exit state for "no iteration" and "all iterations done": everything the body assigns is arbitrary (the entry values are
+    # a special case); positions are dropped unless no explored path of the body produced an I/O event at all
+    x = p.fork()
+    havoc(x, False, len(eng.io_log) > n_log0)
+    x.ghost.pop("iter_k", None)
+    for nm in targets:
+        x.env[nm] = Opaque(f"{nm}!after_loop{next(eng.counter)}")
+    out += eng.block(st.orelse, [x]) if st.orelse else [x]
     return out
 
 
@@ -455,6 +488,84 @@ class EngH(Eng6):
     def __init__(self, *a, **kw):
         self.entry_tag = kw.pop("entry_tag", "?")
         super().__init__(*a, **kw)
+        self.io_log = []          # every event of every explored path (also those that end inside a loop body)
+        self._names = {}
+
+    def _consts(self, e):
+        k = e.get_id()
+        if k not in self._names:
+            acc, todo = set(), [e]
+            while todo:
+                x = todo.pop()
+                if z3.is_app(x) and x.decl().kind() == z3.Z3_OP_UNINTERPRETED:
+                    acc.add(x.decl().name())
+                todo.extend(x.children())
+            self._names[k] = (e, frozenset(acc))
+        return self._names[k][1]
+
+    def _pc_names(self, p):
+        """names of the uninterpreted constants in p.pc (cached on the path, extended incrementally)"""
+        n0, acc = p.ghost.get("_pcnames", (0, frozenset()))
+        if n0 > len(p.pc):
+            n0, acc = 0, frozenset()
+        if n0 < len(p.pc):
+            new = set()
+            for c in p.pc[n0:]:
+                new |= self._consts(c)
+            acc = acc | new
+            p.ghost["_pcnames"] = (len(p.pc), acc)
+        return acc
+
+    def feasible(self, p, extra=None):
+        """a condition over constants the path condition does not mention (the memoised truth of an opaque value, ...) is
+        decided on its own: a fresh boolean literal without any solver call, anything else by a query on the literal alone"""
+        lit = extra if extra is not None else (p.pc[-1] if p.pc else None)
+        if lit is not None:
+            s = z3.simplify(lit)
+            if z3.is_false(s):
+                return False
+            if z3.is_true(s):
+                return True
+            if extra is not None:
+                names = self._pc_names(p)
+            else:
+                last = p.pc.pop()
+                try:
+                    names = self._pc_names(p)
+                finally:
+                    p.pc.append(last)
+            mine = self._consts(s)
+            if mine and not (mine & names):
+                b = s.arg(0) if z3.is_not(s) else s
+                if z3.is_const(b) and z3.is_bool(b):
+                    return True
+                k = ("alone", s.get_id())
+                if k not in self._names:
+                    sol = z3.Solver()
+                    sol.set("timeout", self.feas_timeout)
+                    sol.add(s)
+                    self._names[k] = (s, sol.check() != z3.unsat)
+                return self._names[k][1]
+        return super().feasible(p, extra)
+
+    def e_UnaryOp(self, e, p):
+        if isinstance(e.op, (ast.USub, ast.Invert, ast.UAdd)):
+            out = []
+            for q, v in self.ev(e.operand, p):
+                if isinstance(v, Opaque):
+                    out.append((q, Opaque(("unary", type(e.op).__name__, str(v.tag)[:60]))))
+                else:
+                    out.append((q, self._unary(e, v, q)))
+            return out
+        return super().e_UnaryOp(e, p)
+
+    def _unary(self, e, v, q):
+        if isinstance(e.op, ast.UAdd):
+            return v
+        if isinstance(v, (PyI, PyB)):
+            z = self.as_int(v)
+            return PyI(z3.simplify(-z if isinstance(e.op, ast.USub) else -z - 1), lit=getattr(v, "lit", False))
+        raise Unsupported("unary operator on " + type(v).__name__)
 
     # ---- statements ----
     def s_With(self, st, p):
@@ -465,7 +576,7 @@ class EngH(Eng6):
                 for r, v in self.ev(item.context_expr, q):
                     fs2 = list(fs)
                     if isinstance(v, Custom) and isinstance(v.h, FileObj):
-                        r.ghost["io"].append(("__enter__", v.h.fid, st.lineno))
+                        _event(self, r, "__enter__", v.h.fid, st, v.h.origin)
                         fs2.append(v.h)
                     elif isinstance(v, Custom) and getattr(v.h, "tracked", False):
                         raise Unsupported("tracked object used as a context manager")
@@ -491,7 +602,7 @@ class EngH(Eng6):
         if bad:
             raise ProofScriptError(f"while loop at L{st.lineno} of {self.cur_func} with a file object / handle in scope ({', '.join(bad)})")
         p.ghost["skipped_loops"] = p.ghost.get("skipped_loops", []) + [f"{self.cur_func} L{st.lineno}"]
-        for nm in sorted(stored_names(st.body) | stored_names(st.orelse)):
+        for nm in sorted(stored_names_c(st.body) | stored_names_c(st.orelse)):
             p.env[nm] = _fresh_like(self, p.env[nm], nm) if nm in p.env else Opaque(f"{nm}!maybe_bound{next(self.counter)}")
         return [p]
 
@@ -648,6 +759,15 @@ class HPF(PF):
             p.ghost["opaque_self"] = p.ghost.get("opaque_self", []) + [name]
         return super().attr(eng, p, name)
 
+    def setattr(self, eng, p, name, v):
+        if name in ("open", "fn") and self.oid == "pf0" and getattr(eng, "frozen_handle", False):
+            # reported at once; the run goes on with the old binding (everything after it is moot once this is refuted)
+            eng.oblige(p, f"reads.handle_open_and_fn_unchanged[{eng.entry_tag}]", "post", z3.BoolVal(False), None,
+                       note=f"self.{name} is re-assigned by a read: later reads of this handle go somewhere else")
+            p.ghost["writes"].append((self.oid, name))
+            return
+        super().setattr(eng, p, name, v)
+
     def derived(self, eng, p, rgs, how):
         oid = f"pf{next(_ids)}"
         A = p.ghost["attrs"]
@@ -796,7 +916,7 @@ def m_read_cut(eng, q, pf, args, kw, node):
     vals = dict(zip(names, args))
     vals.update(kw)
     inf = vals.get("infile", NONE)
-    q.ghost["io"].append(("call:read_row_group_file", getattr(getattr(inf, "h", None), "fid", None), getattr(node, "lineno", 0)))
+    _event(eng, q, "call:read_row_group_file", getattr(getattr(inf, "h", None), "fid", None), node, "cut")
     for k, v in vals.items():
         if k != "infile" and holds_io(v):
             raise Unsupported(f"a file object flows into read_row_group_file({k}=...)")
@@ -816,13 +936,33 @@ def m_read_cut(eng, q, pf, args, kw, node):
     return [(q, Opaque(("frame", next(eng.counter))))]
 
 
+def h_core_cut(eng, q, args, kw, node):
+    """contract of core.read_row_group(file, ...) (posed on that entry point, with read_row_group_arrays and read_col inline):
+    every read on `file` follows an absolute seek on it, nothing else is invoked on it, it is not closed; position arbitrary after"""
+    f = args[0] if args else kw.get("file")
+    for v in list(args[1:]) + [v for k, v in kw.items() if k != "file"]:
+        if holds_io(v):
+            raise Unsupported("a file object flows into core.read_row_group other than as `file`")
+    if not (isinstance(f, Custom) and isinstance(f.h, FileObj)):
+        raise ProofScriptError("core.read_row_group is not given a file object")
+    _event(eng, q, "call:core.read_row_group", f.h.fid, node, f.h.origin)
+    if q.ghost["fstate"][(f.h.fid, "closed")]:
+        _viol(eng, q, "reads.no_use_after_close", node, "core.read_row_group(<closed file>)")
+    drop_positions(q, [f.h.fid])
+    return [(q, NONE)]
+
+
 def m_to_pandas_cut(eng, q, pf, args, kw, node):
     """contract of to_pandas (posed on that entry point): the caller's object stays open, its position is arbitrary afterwards"""
     for v in list(args) + list(kw.values()):
         if holds_io(v):
             raise Unsupported("a file object flows into to_pandas(...)")
-    q.ghost["io"].append(("call:to_pandas", pf.oid, getattr(node, "lineno", 0)))
+    _event(eng, q, "call:to_pandas", pf.oid, node, "cut")
     op = pf.attr(eng, q, "open")
+    shared = isinstance(op, Custom) and op is q.ghost["attrs"].get(("pf0", "open")) and \
+        pf.attr(eng, q, "fn") is q.ghost["attrs"].get(("pf0", "fn"))
+    eng.oblige(q, f"reads.delegates_to_shared_open[{eng.entry_tag}]", "post", z3.BoolVal(bool(shared)), node,
+               note="the data is read by to_pandas of this handle or of self[...], which has this handle's open and fn")
     if not (isinstance(op, Custom) and isinstance(op.h, OpenFn)):
         raise ProofScriptError("to_pandas on a handle without the shared open")
     if op.h.mode == "file-like":
@@ -856,11 +996,24 @@ def start_path(mode, n_name="n_row_groups"):
     return p, L0, N0, f0
 
 
-def mk_engine(funcs, tag, pf_methods=None, handlers=None):
-    return EngH(funcs=funcs, handlers=dict(HANDLERS, **(handlers or {})), opaque_calls=True, pf_methods=pf_methods or {}, entry_tag=tag)
+def open_fn_of(p):
+    return {k: p.ghost["attrs"][k] for k in (("pf0", "open"), ("pf0", "fn"))}
 
 
-def finish_trace(ctx, res, eng, outs, tag, timeout, expect_ops=True, label=None):
+def pre_ok(ctx, p, label):
+    if solve(list(p.pc), 2000)[0] == REFUTED:
+        ctx.vacuity["requires_sat"] += 1
+    else:
+        ctx.engine_error(f"{label}: precondition unsatisfiable")
+
+
+def mk_engine(funcs, tag, pf_methods=None, handlers=None, frozen=False):
+    eng = EngH(funcs=funcs, handlers=dict(HANDLERS, **(handlers or {})), opaque_calls=True, pf_methods=pf_methods or {}, entry_tag=tag)
+    eng.frozen_handle = frozen        # read entry points: the handle's open / fn must not be re-bound
+    return eng
+
+
+def finish_trace(ctx, res, eng, outs, tag, timeout, expect_ops=True, label=None, entry_attrs=None):
     """discharge what the handlers emitted, then the whole-trace statements"""
     emitted = {}
     for ob in eng.oblig:
@@ -871,7 +1024,7 @@ def finish_trace(ctx, res, eng, outs, tag, timeout, expect_ops=True, label=None)
         res.add(ob.name, st, {"note": ob.note, "line": ob.lineno, "z3_model": str(m)[:200]} if st == REFUTED else None, secs, be,
                 ob.note if st != PROVED else DETAIL.get(ob.name.split("[")[0], ob.note))
     eng.oblig = []
-    n_ops = sum(1 for q in outs for ev in q.ghost.get("io", []) if ev[1] is not None)
+    n_ops = sum(1 for ev in eng.io_log if ev[1] is not None)
     # the caller's objects are open on every finished path
     still = []
     for q in outs:
@@ -887,6 +1040,11 @@ def finish_trace(ctx, res, eng, outs, tag, timeout, expect_ops=True, label=None)
         if nm not in emitted and nm not in res.d:
             res.add(nm, PROVED, None, 0.0, "trace",
                     DETAIL[base] + f" - {len(outs)} finished paths, {n_ops} file operations / calls on the trace, none violates it")
+    if entry_attrs is not None and f"reads.handle_open_and_fn_unchanged[{tag}]" not in emitted:
+        changed = sorted({f"{k[0]}.{k[1]}" for q in outs for k in entry_attrs
+                          if q.ghost["attrs"].get(k) is not entry_attrs[k] and solve(list(q.pc), 2000)[0] == REFUTED})
+        res.add(f"reads.handle_open_and_fn_unchanged[{tag}]", PROVED if not changed else REFUTED, {"reassigned": changed} if changed else None, 0.0, "trace",
+                "a read does not rebind self.open / self.fn: the handle reads the same file through the same function next time")
     sk = sorted({s for q in outs for s in q.ghost.get("skipped_loops", [])})
     if sk:
         res.add(f"reads.page_loop_cannot_reach_a_file[{tag}]", PROVED, None, 0.0, "trace",
@@ -910,14 +1068,16 @@ def run_to_pandas(ctx, funcs, timeout, mode, used):
     res = Results()
     tag = f"to_pandas,{mode}"
     p, L0, N0, f0 = start_path(mode)
-    eng = mk_engine(funcs, tag, pf_methods={"read_row_group_file": m_read_cut, "to_pandas": m_to_pandas_cut})
+    eng = mk_engine(funcs, tag, pf_methods={"read_row_group_file": m_read_cut, "to_pandas": m_to_pandas_cut}, frozen=True)
     kwargs = {"columns": NONE, "categories": NONE, "index": NONE, "dtypes": NONE, "filters": Opaque("arg:filters"),
               "row_filter": Opaque("arg:row_filter")}
+    pre_ok(ctx, p, tag)
+    ea = open_fn_of(p)
     outs = eng.run("ParquetFile.to_pandas", p, [Custom(HPF("pf0"))], kwargs)
-    finish_trace(ctx, res, eng, outs, tag, timeout)
+    finish_trace(ctx, res, eng, outs, tag, timeout, entry_attrs=ea)
     # must-fail / coverage: in file-like mode the object handed to read_row_group_file IS the caller's
     if mode == "file-like":
-        hit = any(ev[0] == "call:read_row_group_file" and ev[1] == "F0" for q in outs for ev in q.ghost["io"])
+        hit = any(ev[0] == "call:read_row_group_file" and ev[1] == "F0" for ev in eng.io_log)
         if hit:
             ctx.vacuity["must_fail_sat"] += 1
         else:
@@ -935,20 +1095,49 @@ def run_read_row_group_file(ctx, funcs, timeout, mode, infile_given, used):
         inf = Custom(FileObj("G0", "caller"))
         new_file(p, "G0", "caller", False)
     eng = mk_engine(funcs, tag, pf_methods={"read_row_group_file": m_read_cut, "to_pandas": m_to_pandas_cut},
-                    handlers={"core.read_row_group": inline_fn("read_row_group"), "read_row_group_arrays": inline_fn("read_row_group_arrays"),
-                              "read_col": inline_fn("read_col")})
+                    handlers={"core.read_row_group": h_core_cut}, frozen=True)
     j = z3.Int("rg_index")
     p.pc += [0 <= j, j < N0]
     kwargs = {"index": NONE, "assign": Opaque("arg:assign"), "partition_meta": Opaque("arg:partition_meta"),
               "row_filter": Opaque("arg:row_filter"), "infile": inf}
+    pre_ok(ctx, p, tag)
+    ea = open_fn_of(p)
     outs = eng.run("ParquetFile.read_row_group_file", p, [Custom(HPF("pf0")), Custom(HRG(L0, j)), Opaque("arg:columns"), Opaque("arg:categories")], kwargs)
-    n_ops = finish_trace(ctx, res, eng, outs, tag, timeout)
-    reads = sum(1 for q in outs for ev in q.ghost["io"] if ev[0] == "read")
+    n_ops = finish_trace(ctx, res, eng, outs, tag, timeout, entry_attrs=ea)
+    want = "G0" if infile_given else ("F0" if mode == "file-like" else None)
+    hits = [ev for ev in eng.io_log if ev[0] == "call:core.read_row_group"]
+    if hits and all((ev[1] == want) if want else str(ev[1]).startswith("O") for ev in hits):
+        ctx.vacuity["must_fail_sat"] += 1       # "the object given is never read" is refuted: the frame is not vacuous
+        res.add(f"reads.reads_the_object_it_was_given[{tag}]", PROVED, None, 0.0, "trace",
+                "the file handed to core.read_row_group is `infile` when given, else what self.open(fn, mode='rb') returned")
+    else:
+        res.add(f"reads.reads_the_object_it_was_given[{tag}]", REFUTED if hits else UNKNOWN, {"calls": str(hits[:3]), "expected": want}, 0.0, "trace",
+                "the file handed to core.read_row_group is `infile` when given, else what self.open(fn, mode='rb') returned")
+    used |= set(opaque_self_used(outs))
+    return res
+
+
+def run_core_read_row_group(ctx, funcs, timeout):
+    """core.read_row_group(file, rg, ...) with read_row_group_arrays and read_col inline: the only place where bytes are read"""
+    res = Results()
+    tag = "core.read_row_group"
+    p, L0, N0, f0 = start_path("path")
+    f = Custom(FileObj("G0", "caller"))
+    new_file(p, "G0", "caller", False)
+    eng = mk_engine(funcs, tag, handlers={"read_row_group_arrays": inline_fn("read_row_group_arrays"), "read_col": inline_fn("read_col")})
+    j = z3.Int("rg_index")
+    p.pc += [0 <= j, j < N0]
+    args = [f, Custom(HRG(L0, j)), Opaque("arg:columns"), Opaque("arg:categories"), Opaque("arg:schema_helper"), Opaque("arg:cats")]
+    kwargs = {"selfmade": Opaque("arg:selfmade"), "index": Opaque("arg:index"), "assign": opaque_not_none(p, "arg:assign"),
+              "scheme": Opaque("arg:scheme"), "partition_meta": Opaque("arg:partition_meta"), "row_filter": Opaque("arg:row_filter")}
+    pre_ok(ctx, p, tag)
+    outs = eng.run("read_row_group", p, args, kwargs)
+    finish_trace(ctx, res, eng, outs, tag, timeout)
+    reads = sum(1 for ev in eng.io_log if ev[0] == "read")
     if reads:
-        ctx.vacuity["must_fail_sat"] += 1       # "this entry point never reads" is refuted: the seek obligation is not vacuous
+        ctx.vacuity["must_fail_sat"] += 1       # "this function never reads" is refuted: the seek obligation is not vacuous
     else:
         ctx.engine_error(f"{tag}: no read on the trace")
-    used |= set(opaque_self_used(outs))
     return res
 
 
@@ -957,8 +1146,9 @@ def run_delegating(ctx, funcs, timeout, mode, entry, used):
     res = Results()
     tag = f"{entry},{mode}"
     p, L0, N0, f0 = start_path(mode)
-    eng = mk_engine(funcs, tag, pf_methods={"read_row_group_file": m_read_cut, "to_pandas": m_to_pandas_cut})
+    eng = mk_engine(funcs, tag, pf_methods={"read_row_group_file": m_read_cut, "to_pandas": m_to_pandas_cut}, frozen=True)
     me = Custom(HPF("pf0"))
+    ea = open_fn_of(p)
     if entry == "iter_row_groups":
         outs = eng.run("ParquetFile.iter_row_groups", p, [me], {"filters": Opaque("arg:filters")})
     elif entry == "head":
@@ -969,20 +1159,13 @@ def run_delegating(ctx, funcs, timeout, mode, entry, used):
         outs = eng.run("ParquetFile.count", p, [me], {"filters": Opaque("arg:filters"), "row_filter": PyB(True)})
     else:
         outs = eng.run("ParquetFile." + entry, p, [me])
-    finish_trace(ctx, res, eng, outs, tag, timeout, expect_ops=False)
-    # every to_pandas call goes to a handle that shares this handle's open (or to this handle)
-    ok, n = True, 0
-    for q in outs:
-        kids = {c[0] for c in q.ghost.get("children", [])} | {"pf0"}
-        for ev in q.ghost["io"]:
-            if ev[0] == "call:to_pandas":
-                n += 1
-                ok = ok and ev[1] in kids
+    finish_trace(ctx, res, eng, outs, tag, timeout, expect_ops=False, entry_attrs=ea)
+    n = sum(1 for ev in eng.io_log if ev[0] == "call:to_pandas")
     if entry != "_read_partitions":
-        res.add(f"reads.delegates_to_shared_open[{tag}]", PROVED if ok and n else REFUTED if not ok else UNKNOWN, None, 0.0, "trace",
-                f"all data is read by to_pandas of this handle or of self[...] (which shares open / fn): {n} calls on the trace")
         if n:
             ctx.vacuity["covers"] += 1
+        else:
+            res.add(f"reads.delegates_to_shared_open[{tag}]", UNKNOWN, None, 0.0, "trace", "no to_pandas call on the trace: the script does not see how this entry point reads")
     used |= set(opaque_self_used(outs))
     return res
 
@@ -1023,8 +1206,8 @@ def run_init(ctx, funcs, timeout, variant, used):
         op, fnv = A.get(("pf0", "open")), A.get(("pf0", "fn"))
         nm = f"handles.open_returns_callers_object[{tag}]"
         if not (isinstance(op, Custom) and hasattr(op.h, "call")):
-            res.add(nm, REFUTED if op is not None else UNKNOWN, {"open": type(getattr(op, 'h', op)).__name__}, 0.0, "trace",
-                    "self.open is not a function of this call that returns the object given")
+            res.add(nm, UNKNOWN, None, 0.0, "engine",
+                    "self.open is bound to something the script cannot evaluate (" + type(getattr(op, 'h', op)).__name__ + "): undecided")
             continue
         n_io = len(q.ghost["io"])
         q2 = q.fork()
@@ -1039,10 +1222,13 @@ def run_init(ctx, funcs, timeout, variant, used):
         res.add(nm, PROVED if ok and none_fn else REFUTED, None if ok and none_fn else {"open_result": str([type(getattr(v, 'h', v)).__name__ for _, v in got]),
                                                                                      "fn": type(fnv).__name__}, 0.0, "trace",
                 "self.open(<anything>, 'rb') evaluates to the very object given to ParquetFile(...), without touching it; self.fn is None")
+        kept = sorted(name for (o, name), v in A.items() if name != "open" and holds_io(v))
+        res.add(f"handles.file_object_only_reachable_through_open[{tag}]", PROVED if not kept else REFUTED, {"attributes": kept} if kept else None, 0.0, "trace",
+                "the handle keeps no other reference to the caller's object (no attribute holds it): every later use goes through self.open")
     eng.oblig = []
     if n_ret:
         ctx.vacuity["covers"] += n_ret
-    reads = sum(1 for q in outs for ev in q.ghost["io"] if ev[0] == "read")
+    reads = sum(1 for ev in eng.io_log if ev[0] == "read")
     if reads:
         ctx.vacuity["must_fail_sat"] += 1
     used |= set(opaque_self_used(outs))
@@ -1070,7 +1256,7 @@ def h_copy(eng, q, args, kw, node):
     return [(q, Custom(FMD(oid, o.h.root, copy_of=o.h.oid)))]
 
 
-def getitem_paths(funcs, kind, mode="path"):
+def getitem_paths(ctx, funcs, kind, mode="path"):
     """run the real __getitem__ (with __setstate__ / _set_attrs inline); -> eng, [(path, new oid)], want, item facts"""
     p, L0, N0, f0 = start_path(mode)
     B0 = z3.Bool("footer_row_groups_is_None")
@@ -1090,6 +1276,7 @@ def getitem_paths(funcs, kind, mode="path"):
                     pf_methods={"__setstate__": inline_method("__setstate__"), "_set_attrs": inline_method("_set_attrs"),
                                 "count": inline_method("count"), "_read_partitions": lambda e, q, pf, a, k, n: [(q, NONE)],
                                 "_dtypes": lambda e, q, pf, a, k, n: [(q, Opaque("dtypes"))]})
+    pre_ok(ctx, p, f"__getitem__[{kind}]")
     outs = eng.run("ParquetFile.__getitem__", p, [Custom(HPF("pf0")), item])
     return eng, outs, want, (L0, N0)
 
@@ -1109,7 +1296,7 @@ def selection_terms(q, want, L0):
 def run_derived(ctx, funcs, timeout, kind):
     res = Results()
     tag = f"[{kind}]"
-    eng, outs, want, (L0, N0) = getitem_paths(funcs, kind)
+    eng, outs, want, (L0, N0) = getitem_paths(ctx, funcs, kind)
     n_ret = 0
     for q in outs:
         if q.ctl[0] != "ret":
@@ -1195,6 +1382,26 @@ def prealloc_sizes(eng, q, oid):
     return got
 
 
+def pose_pref(res, name, hyps, goal, timeout, detail, model_terms, prefer):
+    """pose(); when refuted, a counter-model that ALSO satisfies `prefer` (a consistent parent footer) is shown if there is one
+    (the status never depends on `prefer`)"""
+    st, m, secs = solve(list(hyps) + [z3.Not(goal)], timeout)
+    note = None
+    if st == REFUTED:
+        st2, m2, s2 = solve(list(hyps) + list(prefer) + [z3.Not(goal)], timeout)
+        secs += s2
+        if st2 == REFUTED and prefer:
+            m, note = m2, "counter-model with a CONSISTENT parent footer (num_rows == sum over its row groups): the answer is stale only on the derived handle"
+    mdl = None
+    if m is not None:
+        mdl = {k: backends.model_value(m, t) for k, t in model_terms.items()}
+        if note:
+            mdl["note"] = note
+        mdl["z3_model"] = str(m)[:200]
+    res.add(name, st, mdl, secs, "z3", detail)
+    return st
+
+
 def run_counts(ctx, funcs, timeout, kind):
     res = Results()
     tag = f"[{kind}]"
@@ -1205,7 +1412,7 @@ def run_counts(ctx, funcs, timeout, kind):
         p.ctl = ("ret", Custom(HPF("pf0")))
         outs, want = [p], None
     else:
-        eng, outs, want, (L0, N0) = getitem_paths(funcs, kind)
+        eng, outs, want, (L0, N0) = getitem_paths(ctx, funcs, kind)
     eng.entry_tag = "count" + tag
     footer_total = z3.Int("footer_num_rows_fmd0")
     n_ret = 0
@@ -1227,7 +1434,9 @@ def run_counts(ctx, funcs, timeout, kind):
                 res.add(base + ".count", UNKNOWN, None, 0.0, "engine", "the selection list was not drawn on this path")
                 continue
         n_ret += 1
-        model = {"parent_row_groups": N0, "selected_row_groups": nsel, "rows_in_selection": rows, "parent_footer_num_rows": footer_total}
+        model = {"parent_row_groups": N0, "selected_row_groups": nsel, "rows_in_selection": rows, "parent_footer_num_rows": footer_total,
+                 "parent_sum_num_rows": S(L0, N0)}
+        prefer = [footer_total == S(L0, N0), s_mono(L0, z3.IntVal(0), N0), N0 >= 2, rows >= 1, S(L0, N0) > rows]
         me = Custom(HPF(oid))
         # count()
         for r in eng.run("ParquetFile.count", q.fork(), [me]):
@@ -1240,13 +1449,14 @@ def run_counts(ctx, funcs, timeout, kind):
                 continue
             cz = eng.as_int(c)
             if kind != "root":
-                pose(res, base + ".count" + ret_tag(eng, "ParquetFile.count", r), list(r.pc), cz == rows, timeout,
-                     "pf[item].count() == sum of num_rows over the SELECTED row groups (not the parent's footer total)", dict(model, count=cz))
-                if not refutable and solve(list(r.pc) + [cz != footer_total], 2000)[0] == REFUTED:
-                    refutable = True
+                pose_pref(res, base + ".count" + ret_tag(eng, "ParquetFile.count", r), list(r.pc), cz == rows, timeout,
+                          "pf[item].count() == sum of num_rows over the SELECTED row groups (not the parent's footer total)", dict(model, count=cz), prefer)
+                if not refutable and solve(list(r.pc) + [rows != footer_total], 2000)[0] == REFUTED:
+                    refutable = True          # the rows of the selection CAN differ from the parent's footer total
             for pc, size in prealloc_sizes(eng, r, oid):
-                pose(res, "count.equals_rows_preallocated_by_to_pandas" + tag, pc, size == cz, timeout,
-                     "count() == the number of rows to_pandas() pre-allocates for the same handle", dict(model, count=cz, preallocated=size))
+                pose_pref(res, "count.equals_rows_preallocated_by_to_pandas" + tag, pc, size == cz, timeout,
+                          "count() == the number of rows to_pandas() pre-allocates for the same handle", dict(model, count=cz, preallocated=size),
+                          prefer if kind != "root" else [])
         if kind == "root":
             continue
         # info
@@ -1262,8 +1472,8 @@ def run_counts(ctx, funcs, timeout, kind):
                 if not isinstance(x, (PyI, PyB)):
                     res.add(base + ".info_" + key, REFUTED, {"note": "not derived from this handle's row groups: " + type(x).__name__}, 0.0, "trace")
                     continue
-                pose(res, base + ".info_" + key, list(r.pc), eng.as_int(x) == wantv, timeout,
-                     f"pf[item].info[{key!r}] is that of the selected row groups", dict(model, value=eng.as_int(x)))
+                pose_pref(res, base + ".info_" + key, list(r.pc), eng.as_int(x) == wantv, timeout,
+                          f"pf[item].info[{key!r}] is that of the selected row groups", dict(model, value=eng.as_int(x)), prefer)
         # len
         for r in eng.run("ParquetFile.__len__", q.fork(), [me]):
             if r.ctl[0] != "ret":
@@ -1302,8 +1512,8 @@ INLINED = ("to_pandas", "read_row_group_file", "iter_row_groups", "head", "count
 def run_helpers(ctx, funcs, used):
     res = Results()
     bad, checked = [], []
-    for h in sorted(used - set(INLINED) | {"_set_attrs", "_dtypes", "_read_partitions"}):
-        f = funcs.get("ParquetFile." + h)
+    for h in sorted(used - set(INLINED) | {"_set_attrs", "_dtypes", "_read_partitions"}) + ["filter_row_groups", "statistics", "paths_to_cats", "_pre_allocate"]:
+        f = funcs.get("ParquetFile." + h) or funcs.get(h)
         if f is None:
             continue
         checked.append(h)
@@ -1366,10 +1576,11 @@ def check(ctx, timeout):
         guarded(f"reads[__init__,file-like,{variant}]", run_init, ctx, funcs, timeout, variant, used)
     for mode in ("file-like", "path"):
         guarded(f"reads[to_pandas,{mode}]", run_to_pandas, ctx, funcs, timeout, mode, used)
-        for given in (True, False):
+        for given in ((True, False) if mode == "file-like" else (False,)):
             guarded(f"reads[read_row_group_file,{mode},infile={'given' if given else 'None'}]", run_read_row_group_file, ctx, funcs, timeout, mode, given, used)
         for entry in ("iter_row_groups", "head", "count", "_read_partitions"):
             guarded(f"reads[{entry},{mode}]", run_delegating, ctx, funcs, timeout, mode, entry, used)
+    guarded("reads[core.read_row_group]", run_core_read_row_group, ctx, funcs, timeout)
     for kind in ("int", "slice"):
         guarded(f"handles.derived[{kind}]", run_derived, ctx, funcs, timeout, kind)
     guarded("handles.state_roundtrip", run_state_roundtrip, ctx, funcs, timeout)
